@@ -137,7 +137,7 @@ AllPoolOpts == BOOLEAN \X BOOLEAN \X BOOLEAN
 AllAutoOpts == Paths \X {1, 3} \X BOOLEAN
 \* reduced option sets for the deep replay graph
 FewPoolOpts == {<<FALSE, TRUE, TRUE>>, <<TRUE, FALSE, TRUE>>, <<FALSE, TRUE, FALSE>>}
-FewAutoOpts == {<<"f1", 1, TRUE>>, <<"f2", 3, FALSE>>}
+FewAutoOpts == {<<"f1", 1, TRUE>>, <<"f2", 3, FALSE>>, <<"f1", 3, FALSE>>}   \* the same file with other settings, too
 AllClosedMeansPristine ==
   (Len(stack) = 0) => (L = userL /\ P = userP /\ defaults = NoDefaults)
 =============================================================================
